@@ -470,8 +470,12 @@ Section HistoryProofs.
 
   Lemma lasdata_assign_wf : forall b s a vals, wf s -> wf (fst (lasdata_assign T store tdefault b s a vals)).
   Proof.
-    intros b s a vals W. unfold Scaling.lasdata_assign. apply assign_rec_wf.
-    destruct (sync_wf b s W) as [H1 H2 H3 H4 H5]. constructor; cbn [heap h_s h_o r_s r_o ints]; auto. apply grow_fit. exact H5.
+    intros b s a vals W. unfold Scaling.lasdata_assign.
+    pose proof (sync_wf b s W) as W1.
+    assert (W2 : wf (fst (assign_rec (mkst (heap (sync T b s)) (h_s (sync T b s)) (h_o (sync T b s)) (r_s (sync T b s)) (r_o (sync T b s))
+                                          (grow (ints (sync T b s)) (length vals))) a vals))).
+    { apply assign_rec_wf. destruct W1 as [H1 H2 H3 H4 H5]. constructor; cbn [heap h_s h_o r_s r_o ints]; auto. apply grow_fit. exact H5. }
+    destruct (assign_rec _ a vals) as [s' x]. cbn [fst snd] in *. destruct x; cbn [fst]; auto.
   Qed.
 
   Lemma assign_axes_wf : forall axes s k vals, wf s -> wf (fst (assign_axes T store tdefault s axes k vals)).
@@ -588,12 +592,14 @@ Section HistoryProofs.
   Qed.
 
   (* ---- las.x = vals ---- *)
-  Definition assigned (cols : list (list Z)) (ss so : list T) (a : nat) (vals : list T) (cols' : list (list Z)) (x : out T) : Prop :=
+  (* cols0: the columns before the assignment, cols: the same with the zero points appended for a longer value;
+     a refused assignment leaves cols0 *)
+  Definition assigned (cols0 cols : list (list Z)) (ss so : list T) (a : nat) (vals : list T) (cols' : list (list Z)) (x : out T) : Prop :=
     match x with
     | ONone => vals = [] /\ cols' = cols
                \/ exists xs, Forall2 (fun v X => store v (scale_of ss a) (offset_of so a) = Ok X) vals xs
                              /\ length xs = length (col_of cols (rec_dim a)) /\ cols' = set_at cols (rec_dim a) xs
-    | OErr e => cols' = cols /\
+    | OErr e => cols' = cols0 /\
                 (e = EOverflow /\ (exists v, In v vals /\ store v (scale_of ss a) (offset_of so a) = Err EOverflow)
                  \/ e = EValue /\ length vals <> length (col_of cols (rec_dim a)))
     | OFile _ => False
@@ -602,7 +608,7 @@ Section HistoryProofs.
   Lemma assign_rec_spec : forall s a vals,
     let r := assign_rec s a vals in
     heap (fst r) = heap s /\ h_s (fst r) = h_s s /\ h_o (fst r) = h_o s /\ r_s (fst r) = r_s s /\ r_o (fst r) = r_o s /\
-    assigned (ints s) (get (heap s) (r_s s)) (get (heap s) (r_o s)) a vals (ints (fst r)) (snd r).
+    assigned (ints s) (ints s) (get (heap s) (r_s s)) (get (heap s) (r_o s)) a vals (ints (fst r)) (snd r).
   Proof.
     intros s a vals. unfold Scaling.assign_rec. destruct vals as [|v0 vr].
     - cbn. repeat split; auto.
@@ -623,11 +629,34 @@ Section HistoryProofs.
     let r := step s (Assign a vals) in
     heap (fst r) = heap s /\ h_s (fst r) = h_s s /\ h_o (fst r) = h_o s
     /\ r_s (fst r) = h_s s /\ r_o (fst r) = h_o s      (* the record now uses the header's arrays, even when the assignment fails *)
-    /\ assigned (grow (ints s) (length vals)) (get (heap s) (h_s s)) (get (heap s) (h_o s)) a vals (ints (fst r)) (snd r).
+    /\ assigned (ints s) (grow (ints s) (length vals)) (get (heap s) (h_s s)) (get (heap s) (h_o s)) a vals (ints (fst r)) (snd r).
   Proof.
     intros s a vals. cbn [Scaling.step]. unfold Scaling.lasdata_assign. change gen_setattr_syncs with true.
     cbn [Scaling.sync heap h_s h_o r_s r_o ints].
-    apply (assign_rec_spec (mkst (heap s) (h_s s) (h_o s) (h_s s) (h_o s) (grow (ints s) (length vals)))).
+    pose proof (assign_rec_spec (mkst (heap s) (h_s s) (h_o s) (h_s s) (h_o s) (grow (ints s) (length vals))) a vals) as H.
+    cbv zeta in H. cbn [heap h_s h_o r_s r_o ints] in H.
+    destruct (assign_rec (mkst (heap s) (h_s s) (h_o s) (h_s s) (h_o s) (grow (ints s) (length vals))) a vals) as [s' x].
+    cbn [fst snd] in *. destruct H as (A & B & C & D & E & F).
+    destruct x as [|e|f]; cbn [fst snd heap h_s h_o r_s r_o ints].
+    - repeat (split; [assumption|]). exact F.
+    - do 5 (split; [reflexivity|]). unfold assigned in *. destruct F as [_ F]. split; [reflexivity|exact F].
+    - repeat (split; [assumption|]). exact F.
+  Qed.
+
+  Lemma lasdata_assign_refs : forall b s a vals,
+    let r := lasdata_assign T store tdefault b s a vals in
+    heap (fst r) = heap s /\ h_s (fst r) = h_s s /\ h_o (fst r) = h_o s
+    /\ r_s (fst r) = r_s (sync T b s) /\ r_o (fst r) = r_o (sync T b s).
+  Proof.
+    intros b s a vals. unfold Scaling.lasdata_assign.
+    set (s1 := sync T b s).
+    assert (HS : heap s1 = heap s /\ h_s s1 = h_s s /\ h_o s1 = h_o s) by (destruct b; cbn; auto).
+    destruct HS as (S1 & S2 & S3).
+    pose proof (assign_rec_spec (mkst (heap s1) (h_s s1) (h_o s1) (r_s s1) (r_o s1) (grow (ints s1) (length vals))) a vals) as H.
+    cbv zeta in H. cbn [heap h_s h_o r_s r_o ints] in H.
+    destruct (assign_rec (mkst (heap s1) (h_s s1) (h_o s1) (r_s s1) (r_o s1) (grow (ints s1) (length vals))) a vals) as [s' x].
+    cbn [fst snd] in *. destruct H as (A & B & C & D & E & _).
+    destruct x as [|e|f]; cbn [fst snd]; rewrite ?A, ?B, ?C, ?D, ?E; auto.
   Qed.
 
   (* las.xyz = value is las.x = column 0; las.y = column 1; las.z = column 2, stopping at the first error *)
@@ -657,15 +686,14 @@ Section HistoryProofs.
               lasdata_assign T store tdefault false s' a v = lasdata_assign T store tdefault true s' a v
               /\ r_s (fst (lasdata_assign T store tdefault true s' a v)) = h_s (fst (lasdata_assign T store tdefault true s' a v))
               /\ r_o (fst (lasdata_assign T store tdefault true s' a v)) = h_o (fst (lasdata_assign T store tdefault true s' a v))).
-    { intros s' a v E1 E2. unfold Scaling.lasdata_assign. rewrite (sync_synced s' E1 E2). cbn [Scaling.sync].
-      split; [reflexivity|].
-      destruct (assign_rec_refs (mkst (heap s') (h_s s') (h_o s') (r_s s') (r_o s') (grow (ints s') (length v))) a v)
-        as (A & B & C & D). cbn [heap h_s h_o r_s r_o ints] in *. rewrite A, B, C, D. auto. }
+    { intros s' a v E1 E2. split.
+      - unfold Scaling.lasdata_assign. rewrite (sync_synced s' E1 E2). cbn [Scaling.sync]. reflexivity.
+      - destruct (lasdata_assign_refs true s' a v) as (A & B & C & D & E). cbv zeta in *. cbn [Scaling.sync r_s r_o] in D, E.
+        rewrite B, C, D, E. auto. }
     assert (S0 : r_s (fst (lasdata_assign T store tdefault true s 0 (nth 0 vals []))) = h_s (fst (lasdata_assign T store tdefault true s 0 (nth 0 vals [])))
                  /\ r_o (fst (lasdata_assign T store tdefault true s 0 (nth 0 vals []))) = h_o (fst (lasdata_assign T store tdefault true s 0 (nth 0 vals [])))).
-    { unfold Scaling.lasdata_assign. cbn [Scaling.sync].
-      destruct (assign_rec_refs (mkst (heap s) (h_s s) (h_o s) (h_s s) (h_o s) (grow (ints s) (length (nth 0 vals [])))) 0 (nth 0 vals []))
-        as (A & B & C & D). cbn [heap h_s h_o r_s r_o ints] in *. rewrite A, B, C, D. auto. }
+    { destruct (lasdata_assign_refs true s 0%nat (nth 0 vals [])) as (A & B & C & D & E). cbv zeta in *. cbn [Scaling.sync r_s r_o] in D, E.
+      rewrite B, C, D, E. auto. }
     unfold then_assign. cbn [Scaling.step]. change gen_setattr_syncs with true.
     destruct (lasdata_assign T store tdefault true s 0 (nth 0 vals [])) as [s1 x1]. cbn [fst snd] in *.
     destruct x1; [|reflexivity|reflexivity].
@@ -679,7 +707,7 @@ Section HistoryProofs.
   Lemma step_rec_assign_spec : forall s a vals,
     let r := step s (RecAssign a vals) in
     heap (fst r) = heap s /\ h_s (fst r) = h_s s /\ h_o (fst r) = h_o s /\ r_s (fst r) = r_s s /\ r_o (fst r) = r_o s
-    /\ assigned (ints s) (get (heap s) (r_s s)) (get (heap s) (r_o s)) a vals (ints (fst r)) (snd r).
+    /\ assigned (ints s) (ints s) (get (heap s) (r_s s)) (get (heap s) (r_o s)) a vals (ints (fst r)) (snd r).
   Proof. intros s a vals. cbn [Scaling.step]. apply assign_rec_spec. Qed.
 
   (* ---- las.change_scaling ---- *)
@@ -930,29 +958,29 @@ Section AxesAssign.
   Hypothesis restore_err : forall v s o e, restore v s o = Err e -> e = EOverflow.
 
   (* the record's column of axis a after `<axis> = vals` under scaling (sc, off), and the outcome *)
-  Definition assign_outcome (cols : list (list Z)) (sc off : T) (a : nat) (vals : list T) (cols' : list (list Z)) (x : out T) : Prop :=
+  Definition assign_outcome (cols0 cols : list (list Z)) (sc off : T) (a : nat) (vals : list T) (cols' : list (list Z)) (x : out T) : Prop :=
     match x with
     | ONone => vals = [] /\ cols' = cols
                \/ exists xs, Forall2 (fun v X => store v sc off = Ok X) vals xs
                              /\ length xs = length (nth a cols []) /\ cols' = set_at cols a xs
-    | OErr e => cols' = cols /\
+    | OErr e => cols' = cols0 /\
                 (e = EOverflow /\ (exists v, In v vals /\ store v sc off = Err EOverflow)
                  \/ e = EValue /\ length vals <> length (nth a cols []))
     | OFile _ => False
     end.
 
-  Lemma assigned_axis : forall cols ss so a vals cols' x, (a < 3)%nat ->
-    assigned T store d cols ss so a vals cols' x ->
-    assign_outcome cols (at3 T d ss a) (at3 T d so a) a vals cols' x.
+  Lemma assigned_axis : forall cols0 cols ss so a vals cols' x, (a < 3)%nat ->
+    assigned T store d cols0 cols ss so a vals cols' x ->
+    assign_outcome cols0 cols (at3 T d ss a) (at3 T d so a) a vals cols' x.
   Proof.
-    intros cols ss so a vals cols' x Ha H. unfold assigned, scale_of, offset_of, rec_dim, col_of in H.
+    intros cols0 cols ss so a vals cols' x Ha H. unfold assigned, scale_of, offset_of, rec_dim, col_of in H.
     rewrite (view_row_axis a Ha) in H. exact H.
   Qed.
 
   Lemma step_assign_axis : forall s a vals, (a < 3)%nat ->
     let r := step T present store restore teqb d s (Assign a vals) in
     heap (fst r) = heap s /\ h_s (fst r) = h_s s /\ h_o (fst r) = h_o s /\ r_s (fst r) = h_s s /\ r_o (fst r) = h_o s
-    /\ assign_outcome (grow (ints s) (length vals)) (at3 T d (get T (heap s) (h_s s)) a) (at3 T d (get T (heap s) (h_o s)) a) a vals (ints (fst r)) (snd r).
+    /\ assign_outcome (ints s) (grow (ints s) (length vals)) (at3 T d (get T (heap s) (h_s s)) a) (at3 T d (get T (heap s) (h_o s)) a) a vals (ints (fst r)) (snd r).
   Proof.
     intros s a vals Ha r. destruct (step_assign_spec T present store restore teqb d store_err s a vals) as (A & B & C & D & E & F).
     repeat split; auto. apply assigned_axis; assumption.
@@ -961,7 +989,7 @@ Section AxesAssign.
   Lemma step_rec_assign_axis : forall s a vals, (a < 3)%nat ->
     let r := step T present store restore teqb d s (RecAssign a vals) in
     heap (fst r) = heap s /\ h_s (fst r) = h_s s /\ h_o (fst r) = h_o s /\ r_s (fst r) = r_s s /\ r_o (fst r) = r_o s
-    /\ assign_outcome (ints s) (at3 T d (get T (heap s) (r_s s)) a) (at3 T d (get T (heap s) (r_o s)) a) a vals (ints (fst r)) (snd r).
+    /\ assign_outcome (ints s) (ints s) (at3 T d (get T (heap s) (r_s s)) a) (at3 T d (get T (heap s) (r_o s)) a) a vals (ints (fst r)) (snd r).
   Proof.
     intros s a vals Ha r. destruct (step_rec_assign_spec T present store restore teqb d store_err s a vals) as (A & B & C & D & E & F).
     repeat split; auto. apply assigned_axis; assumption.
@@ -1014,7 +1042,7 @@ Lemma q_assign_after : forall ops s0 a vals, wf s0 -> (a < 3)%nat ->
   | ONone => vals = [] /\ ints (fst r) = cols
              \/ exists xs, Forall2 (q_assigned_int sc off) vals xs
                            /\ length xs = length (nth a cols []) /\ ints (fst r) = set_at cols a xs
-  | OErr e => ints (fst r) = cols /\
+  | OErr e => ints (fst r) = ints s /\     (* a refused assignment does not leave the record grown *)
               (e = EOverflow /\ (exists v, In v vals /\ ~ fitsP (q_store v sc off))
                \/ e = EValue /\ length vals <> length (nth a cols []))
   | OFile _ => False
@@ -1042,7 +1070,7 @@ Lemma f_assign_after : forall ops s0 a vals, wf s0 -> (a < 3)%nat ->
   | ONone => vals = [] /\ ints (fst r) = cols
              \/ exists xs, Forall2 (fun v X => f_store v sc off = Some X /\ fitsP X) vals xs
                            /\ length xs = length (nth a cols []) /\ ints (fst r) = set_at cols a xs
-  | OErr e => ints (fst r) = cols /\
+  | OErr e => ints (fst r) = ints s /\
               (e = EOverflow /\ (exists v, In v vals /\ f_store_checked v sc off = Err EOverflow)
                \/ e = EValue /\ length vals <> length (nth a cols []))
   | OFile _ => False
